@@ -337,6 +337,13 @@ class Gen:
                 self.raw(spec["contract"].rstrip("\n"), ("spec", f"{key}/contract"))
         else:
             self.raw(hdr.rstrip(), (src.rel, start_line))
+        if mode == "assume":
+            # assumed contract: signature + contract only (the body is proved in the unit named in the evidence, or trusted)
+            self.raw("{ unimplemented!() }")
+            self.raw(f"// @endfn {key}")
+            self.functions.append({"key": key, "mode": mode, "props": spec.get("props", []), "file": src.rel, "line": start_line,
+                                   "contract": spec.get("contract", None)})
+            return
         # body with splices
         inserts = []
         if mode != "assume":
